@@ -26,6 +26,11 @@ def gen_cases(tier, seed):
     for norb in ([2, 3, 4, 5] if q else [2, 3, 4, 5, 6]):
         for rep in range(10 if q else 60):
             cases.append({"type": "congruence", "norb": norb, "nchol": int(rng.integers(1, 5)), "s": int(rng.integers(1 << 30)), "group": "cong-%d" % norb})
+    for nchol in ([33, 64, 70, 130] if q else [17, 32, 33, 63, 64, 65, 70, 100, 128, 129, 150, 200, 257]):
+        cases.append({"type": "congruence", "norb": int(rng.choice([3, 5])), "nchol": nchol, "s": int(rng.integers(1 << 30)), "group": "congL-%d" % nchol})
+    for nchol in ([70] if q else [65, 70, 130, 150]):
+        cases.append({"type": "covariance", "kind": "uhf", "norb": 4, "nelec": [2, 1], "nchol": nchol, "s": int(rng.integers(1 << 30)),
+                      "group": "covL-%d" % nchol, "cost": 3})
     for kind in ("rhf", "uhf", "ghf", "noci"):
         for norb in ([3, 4] if q else [3, 4, 5]):
             secs = measure.sectors(norb, kind)
@@ -58,8 +63,9 @@ def run_congruence(case):
     sc = max(1.0, np.abs(C).max() ** 2 * np.abs(h1).max() * n * n)
     r1 = max(float(np.max(np.abs(h1r[s] - C.T @ h1[s] @ C))) for s in range(2))
     events.append(judge("rotate/h1-congruence", r1 / sc, 1e-12, "C15/rotate/h1", spin_resid=[float(np.max(np.abs(h1r[s] - C.T @ h1[s] @ C))) for s in range(2)]))
-    r2 = max(float(np.max(np.abs(cr[g] - C.T @ chol[g] @ C))) for g in range(chol.shape[0]))
-    events.append(judge("rotate/chol-congruence", r2 / sc, 1e-12, "C15/rotate/chol"))
+    per = np.array([float(np.max(np.abs(cr[g] - C.T @ chol[g] @ C))) for g in range(chol.shape[0])])
+    r2 = float(per.max())
+    events.append(judge("rotate/chol-congruence", r2 / sc, 1e-12, "C15/rotate/chol", nchol=int(chol.shape[0]), worst_vector=int(per.argmax())))
     events.append(ev("rotate/shapes", bool(np.asarray(out["chol"]).shape == (case["nchol"], n * n) and h1r.shape == (2, n, n)), key="C15/rotate/shapes"))
     events.append(ev("rotate/h0-untouched", bool(float(out["h0"]) == 0.3), key="C15/rotate/h0"))
     return {"events": events, "nontrivial": True, "sample": {"norb": n, "nchol": case["nchol"], "h1_resid": r1, "chol_resid": r2},
@@ -79,7 +85,7 @@ def run_covariance(case):
     trial = t["trial"]
     Q = trials.rand_orth(rng, norb)
     spin_dep = kind != "rhf"
-    h0, h1, chol = trials.rand_ham(rng, norb, case["nchol"], spin_dep=spin_dep)
+    h0, h1, chol = trials.rand_ham(rng, norb, case["nchol"], spin_dep=spin_dep, chol_scale=0.5 / max(1.0, case["nchol"] / 3.0) ** 0.5)
     ham = hamiltonian.hamiltonian(norb)
     hd = trials.ham_data_of(h0, h1, chol)
     hd_rot = ham.rotate_orbs(dict(hd), jnp.array(Q))
